@@ -1,19 +1,37 @@
 """Configuration of ./check for C05 (see tools/props.py)."""
 ENTRY = {'coq_dir': 'C05',
- 'coq_deps': ['Mgr', 'C10'],
+ 'coq_deps': ['Mgr', 'C10', 'Tcp'],
  'model_files': ['Glue'],
  'harness': 'c05',
  'cases': {'quick': 1500, 'thorough': 400000},
  'consts': [],
- 'rule': 'adaptive seeded event histories (5-60 events quick, 10-120 thorough) against the real TransportManager with a scripted '
-         'transport: dial requests by peer and by address, address additions, open/negotiate outcomes, inbound connections (ids drawn from '
-         'the shared counter), accept futures, closures, limit configurations from {none,0,1,2,3}; 85% follow the transport contract and '
-         'end with a settle phase (all owed answers delivered, every peer re-dialled), 15% add infeasible noise (unknown ids, failing '
-         'transport calls, failing accepts). 9% of the events are dial_address calls with arbitrary multiaddress shapes from the C10 '
-         "grammar (accepted shapes, missing /p2p, components after the peer id, wrong first/second component, ws/quic shapes, the node's "
-         'own listen address). After every event the transport calls, protocol notifications, manager events, return code and a dump of '
-         'peer states / pending / counted sets are compared with the extracted Coq model. Non-trivial: trace >= 8 numbers; distinct (case, '
-         'trace) pairs are counted.',
+ 'rule': 'TWO STREAMS. (1) Manager stream: adaptive seeded event histories (5-60 events quick, 10-120 thorough) against the real '
+         'TransportManager with a scripted transport: dial requests by peer and by address, address additions, open/negotiate outcomes, '
+         'inbound connections (ids drawn from the shared counter), accept futures, closures, limit configurations from {none,0,1,2,3}; 85% '
+         'follow the transport contract and end with a settle phase (all owed answers delivered, every peer re-dialled), 15% add '
+         'infeasible noise (unknown ids, failing transport calls, failing accepts). 9% of the events are dial_address calls with arbitrary '
+         'multiaddress shapes from the C10 grammar (accepted shapes, missing /p2p, components after the peer id, wrong first/second '
+         "component, ws/quic shapes, the node's own listen address). After every event the transport calls, protocol notifications, "
+         'manager events, return code and a dump of peer states / pending / counted sets are compared with the extracted Coq model. (2) '
+         'TCP transport stream (one case in 10 quick / 400 thorough, first number 9000; harness/src/c05_tcp.rs): the REAL TcpTransport '
+         '(VerifTcpTransport facade) is driven over loopback sockets through its Transport trait and Stream::poll_next with adaptive call '
+         'sequences (5-40 steps quick, 8-70 thorough, max_parallel_dials from {8,1,2,3}): ids drawn from the shared counter, dial, open '
+         'with 0-5 addresses, negotiate (incl. the manager pattern cancel+negotiate without a poll between), cancel before / after '
+         'completion, accept / reject, inbound sockets with accept_pending / reject_pending, polls; 15% of the cases also reuse or invent '
+         'ids. Every address points at a gate (a loopback listener that connects through to one of two further real TcpTransport nodes A, '
+         'B with different identities, holds the bytes and is released by the harness: pass or close), at a closed port, or is malformed, '
+         'and independently NAMES a peer (none, A, B, nobody): listeners that complete the noise/yamux handshake, stall, close at once, or '
+         'answer with a different identity than the address names (on the dial path and on the open+negotiate path, also as the first of '
+         'several addresses); 3% of the cases instead use a 250 ms connection_open_timeout and let a stalled dial, a stalled open and the '
+         'overall open deadline time out. The harness ends one attempt at a time (the completion order of the inner futures is decided by '
+         'construction) and feeds that order to the model as events; after every step the call result, the TransportEvents polled (kind, '
+         'connection id, authenticated peer), the warn/debug lines of the branches of poll_next that drop a future (log tap) and a dump of '
+         'pending_dials / pending_inbound_connections / opened / cancel_futures (with is_aborted) / pending_open and the lengths of the '
+         'two future sets are compared with the extracted Coq model (coq/Tcp). prop_ok of this stream is the transport contract judged on '
+         "the implementation's own trace: open-phase events only for an owed open, outbound ConnectionEstablished / DialFailure only for "
+         'an owed negotiate, ConnectionEstablished names a peer the address of that id names, negotiate succeeds exactly on an opened id, '
+         'no owed answer is dropped, inbound ids come from the shared counter. Non-trivial: trace >= 8 numbers; distinct (case, trace) '
+         'pairs are counted.',
  'level_text': 'Proof: the dial ledger is an inductive invariant (LInv) of the manager model over every event history the transport '
                "contract allows and every limit configuration: every pending attempt is owed an answer by the transport and is its peer's "
                'dial record, ids are fresh, terminal outputs close an attempt for good; consequences proved for all feasible histories: no '
@@ -21,14 +39,40 @@ ENTRY = {'coq_dir': 'C05',
                'superseded by a reported connection of the same peer or belongs to the recorded finding (limit-rejected outbound '
                'connection), and no peer is wedged; plus per-handler theorems (re-dial attempted, failure consumes the attempt, limit '
                'rejection clears the dial record, panics need contradictory ids). The same ledger is evaluated by the extracted oracle on '
-               "the implementation's own traces; the model is tied to manager/mod.rs step by step.",
+               "the implementation's own traces; the model is tied to manager/mod.rs step by step. The transport contract assumed by that "
+               'invariant is PROVED for a model of TcpTransport (coq/Tcp: the Transport trait methods and poll_next over pending_dials, '
+               'pending_raw_connections + cancel_futures/is_aborted, opened, pending_connections, pending_inbound_connections, '
+               'pending_open, plus the futures built by dial/open: per-address attempts carrying the peer the address names, first success '
+               'wins, Failed when none is left) for every history of calls and future completions: (a) ConnectionOpened/OpenFailure only '
+               'for an owed open (needs an earlier open(c), at most once, never after cancel(c)) for ANY owner; (b) outbound '
+               'ConnectionEstablished/DialFailure only for an owed dial/negotiate, at most once; (c) open and well-formed dial succeed, '
+               'negotiate(c) succeeds exactly when ConnectionOpened c was emitted and not negotiated since; (d) every completed future of '
+               'an un-cancelled call is answered by the poll that observes it: the silent branches of poll_next (two "raw connection '
+               'without a cancel handle", the foreign is_aborted handle, a dial failing without a pending_dials entry) are unreachable, '
+               'what is owed is backed by a pending future; (e) ids: outbound ids come from the owner, inbound ids are the next counter '
+               'value; identity: an outbound ConnectionEstablished names a peer the addresses of that id name (an answer by another '
+               "identity ends in a failure). (b), (d), (e) assume the owner's hygiene caller_ok (ids passed to dial/open were drawn from "
+               'the shared counter and are used once), shown necessary by a witness. That model is tied to tcp/mod.rs by the TCP stream.',
  'level_note': 'Trusted: Coq kernel, extraction, harness + ScriptedTransport hook. Transport contract `feas` (calls succeed, each is '
-               'answered once unless cancelled, cancel is effective, accept futures succeed) is an assumption validated for TCP by reading '
-               "tcp/mod.rs; one transport (TCP) only; the address book is abstracted to 'has an address' (scores are C10); `.await` on "
-               'full protocol channels inside the DialFailure fan-out is not modelled.',
- 'trusted_base': ['transport contract assumed for the feasible stream: open/dial/negotiate calls succeed, each is answered once unless '
-                  'cancelled, accept futures succeed (validated for TCP by reading tcp/mod.rs)',
+               'answered once unless cancelled, cancel is effective, the reported peer is the dialled one): no longer an assumption for '
+               'TCP, it is proved for the model coq/Tcp and tied to tcp/mod.rs by the TCP stream; still assumed there: the negotiation '
+               '(connection.rs negotiate_connection) authenticates the remote and honours its dialed_peer argument (exercised with real '
+               'handshakes, not modelled), timeouts fire (connection_open_timeout / the dial deadline are the model events "attempt '
+               'failed" / EExpire; 3% of the TCP cases and corpus/C05/tcp_timeouts.case run with a 250 ms timeout and end one future at a '
+               'time by waiting, all other cases use 60 s timeouts that never fire), tokio wakes ready futures, the OS delivers socket '
+               'events, the listener does not terminate; the composition of the TCP model with the manager model (caller_ok is what the '
+               'manager does: ids come from next_connection_id, li_fresh) is stated, not proved; "accept futures succeed" is still an '
+               "assumption; websocket / quic: contract still by reading; one transport (TCP) only; the address book is abstracted to 'has "
+               "an address' (scores are C10); `.await` on full protocol channels inside the DialFailure fan-out is not modelled.",
+ 'trusted_base': ['transport contract of the feasible manager stream: open/dial/negotiate calls succeed, each is answered once unless '
+                  'cancelled, the reported peer is the dialled one: for TCP proved for the model coq/Tcp (C05_tcp_* theorems) and tied to '
+                  'the code by the TCP stream; what remains trusted for TCP: noise/yamux negotiation authenticates the remote and compares '
+                  'it with dialed_peer, timeouts fire, tokio, the OS; accept futures succeed (assumed)',
+                  'owner hygiene caller_ok of the TCP theorems (ids passed to dial/open were drawn from the shared counter, each used '
+                  'once) is what TransportManager does (next_connection_id; li_fresh in LInv); the composition of the two models is not '
+                  'proved',
                   'connection ids: inbound ids are drawn from the counter shared with the manager (AllocConn event / '
                   'verif_alloc_connection_id hook)'],
  'assumptions': ['single installed transport (default cargo features of the harness build)',
-                 'debug build: a reachable debug_assert!(false) shows up as a panic']}
+                 'debug build: a reachable debug_assert!(false) shows up as a panic',
+                 'TCP stream: loopback sockets; a completion that does not show up within 20 s is recorded as a missing answer']}
